@@ -10,24 +10,32 @@ package obiformats
 //                1 MiB MIME sniff buffer) x {gzip, bzip2, xz, zstd}, compressed by the harness.
 //   faults       trunc   every truncation length 1..len-1 of the compressed file
 //                flip    every single-bit flip of the compressed file (small files)
-//                rderr   an io.Reader that delivers k bytes of the (compressed or plain) stream and then fails
-//                        with errors.New("EIO") / io.ErrUnexpectedEOF, for every k
+//                rderr   an io.Reader that delivers k bytes and then fails: errors.New("EIO") after every k of the
+//                        compressed stream; EIO and io.ErrUnexpectedEOF after every k of the plain stream
 //   drivers      file    ReadSequencesFromFile(temp file)                      (in-process, real entry point)
 //                reader  Buf -> OBIMimeTypeGuesser -> ReadFasta/ReadFastq      (in-process, the 20 glue lines of
 //                        ReadSequencesFromFile re-stated over an io.Reader so that a read error can be injected)
-//                bin     the obiconvert binary built from the tree, on a subset of the `file` cases
+//                bin     the obiconvert binary built from the tree, on a hashed subset of the `file` cases
+//                        (exit status; agreement with the in-process verdict is counted)
 //                stdin   the obiconvert binary reading the faulted gzip file on stdin (C kseq/gzread path),
 //                        every truncation and every bit flip
 //
 // Oracle (DESIGN §3 C17): success (no error returned, no fatal exit / exit status 0) implies that the records
 // delivered equal the complete original record list. Anything else (error, fatal, panic, crash) is a report.
 //
-// In-process cases run in a CHILD process of this test binary (same code, env VERIF_C17_CHILD=1) that serves
+// In-process cases run in CHILD processes of this test binary (same code, env VERIF_C17_CHILD=1) that serve
 // one case per request line: log.Fatal is intercepted (logrus ExitFunc records the code and runtime.Goexit()s
 // the calling goroutine, which may be a reader goroutine and not the caller; the executor waits for "exit
 // recorded" OR "pipeline drained"). A fatal raised in a pipeline goroutine, a hang or a crash leaves the child
 // dirty: the supervisor replaces it, so no stale goroutine can pollute a later case, and a panic in a
-// goroutine of the code under test is an observed outcome ("crash", i.e. non-zero exit) and not a harness failure.
+// goroutine of the code under test is an observed outcome ("crash", i.e. non-zero exit) and not a harness
+// failure. Each shard drives several children concurrently (the pipelines mostly sleep in 1 ms polls).
+//
+// Violation keys: <driver>/<fault>/<symptom>:<what the decompressor reports>@<site that loses it>; the part
+// after ':' comes from a labelling probe (never used for the verdict).
+//
+// Knobs (debugging only): VERIF_C17_BASES=fa300,fq2k,... restricts the base files (run marked not exhaustive);
+// VERIF_C17_WORKERS children per shard; VERIF_C17_KEEP=dir keeps intact images; VERIF_C17_CPUPROFILE.
 
 import (
 	"bufio"
@@ -911,35 +919,42 @@ func c17runBinaryTO(bin, path string, stdin bool, want string, to time.Duration)
 // c17gzClass labels a faulted gzip file with an independent decoder (compress/gzip), for keys of the stdin
 // driver only.
 func c17refClass(codec string, data []byte) string {
+	c, _ := c17refDecode(codec, data)
+	return c
+}
+
+// c17refDecode: class of the faulted image and number of bytes decodable before the fault, by an independent
+// decoder (compress/gzip, compress/bzip2). Labels only.
+func c17refDecode(codec string, data []byte) (string, int64) {
 	var rd io.Reader
 	switch codec {
 	case "gz":
 		z, err := stdgzip.NewReader(bytes.NewReader(data))
 		if err != nil {
 			if errors.Is(err, io.ErrUnexpectedEOF) || err == io.EOF {
-				return "truncated-header"
+				return "truncated-header", 0
 			}
-			return "invalid-header"
+			return "invalid-header", 0
 		}
 		z.Multistream(true)
 		rd = z
 	case "bz2":
 		rd = stdbzip2.NewReader(bytes.NewReader(data))
 	default:
-		return "unclassified"
+		return "unclassified", 0
 	}
-	_, err := io.Copy(io.Discard, rd)
+	n, err := io.Copy(io.Discard, rd)
 	switch {
 	case err == nil:
-		return "reference-decoder-accepts"
+		return "reference-decoder-accepts", n
 	case errors.Is(err, io.ErrUnexpectedEOF):
-		return "truncated-stream"
+		return "truncated-stream", n
 	case errors.Is(err, stdgzip.ErrChecksum):
-		return "checksum-mismatch"
+		return "checksum-mismatch", n
 	case errors.Is(err, stdgzip.ErrHeader):
-		return "invalid-header"
+		return "invalid-header", n
 	}
-	return "corrupt-stream"
+	return "corrupt-stream", n
 }
 
 func c17mix(k int) uint32 {
@@ -955,8 +970,17 @@ func c17stdinClass(codec string, data []byte) string {
 	if len(data) < 2 || data[0] != 0x1f || data[1] != 0x8b {
 		return "not-recognised-as-gzip"
 	}
-	switch c17refClass(codec, data) {
-	case "truncated-header", "truncated-stream":
+	switch c, n := c17refDecode(codec, data); c {
+	case "truncated-header":
+		return "truncated"
+	case "truncated-stream":
+		// zlib's gzread cannot report a truncation when the input runs out exactly as its 16 KiB output
+		// buffer fills (what remains decodable is then held inside inflate: at most one match, 258 bytes):
+		// gzerror() stays Z_OK. Kept apart so that this quirk of the library does not share a key with
+		// the reader ignoring gzerror().
+		if n >= 16384 && n%16384 <= 258 {
+			return "truncated-at-zlib-output-buffer-boundary"
+		}
 		return "truncated"
 	}
 	return "corrupt"
@@ -1024,7 +1048,7 @@ func TestVerifC17(t *testing.T) {
 	codecs := []string{"gz", "bz2", "xz", "zst"}
 	baseNames := []string{"fa300", "fq2k"}
 	if thorough {
-		baseNames = append(baseNames, "fq300", "fa2k", "fa1m2")
+		baseNames = []string{"fa300", "fa1m2", "fq2k", "fq300"}
 	}
 	if bs := os.Getenv("VERIF_C17_BASES"); bs != "" { // debugging knob: restrict the base files
 		baseNames = strings.Split(bs, ",")
@@ -1033,7 +1057,7 @@ func TestVerifC17(t *testing.T) {
 	r.Bound("codecs", codecs)
 	r.Bound("base_files", baseNames)
 	r.Bound("binary_subset", fmt.Sprintf("1 in %d of the file-driver cases (hash of the case index); stdin driver: all", binRate))
-	r.Bound("large_file_positions", "fa1m2: every position in the first and last 2 KiB of the compressed image, every 4 KiB in between (sampled); no bit flips")
+	r.Bound("large_file_positions", "fa1m2 (sampled): truncation at every length in the first and last 2 KiB of the compressed image and every 4 KiB in between; read errors in the first and last 256 B and every 4 KiB; no bit flips")
 
 	// ---- failure of the harness itself (never a verdict)
 	var failMu sync.Mutex
@@ -1125,15 +1149,17 @@ func TestVerifC17(t *testing.T) {
 		return resp
 	}
 
-	positions := func(n int, large bool, lo int) []int {
+	positionsW := func(n int, large bool, lo, dense int) []int {
 		var out []int
 		for p := lo; p < n; p++ {
-			if !large || p < 2048 || p >= n-2048 || p%4096 == 0 {
+			if !large || p < dense || p >= n-dense || p%4096 == 0 {
 				out = append(out, p)
 			}
 		}
 		return out
 	}
+	positions := func(n int, large bool, lo int) []int { return positionsW(n, large, lo, 2048) }
+	rdPositions := func(n int, large bool) []int { return positionsW(n, large, 0, 256) }
 
 	normMsg := func(m string) string {
 		if len(m) > 48 {
@@ -1395,7 +1421,7 @@ func TestVerifC17(t *testing.T) {
 					}
 				}
 				// read error on the compressed stream (an io.ErrUnexpectedEOF there is the truncation above)
-				for _, p := range positions(len(img), b.Large, 0) {
+				for _, p := range rdPositions(len(img), b.Large) {
 					if !visit(c17case{Base: bn, Codec: codec, Driver: "reader", Fault: "rderr", Pos: p, ErrKind: "EIO"}) {
 						return
 					}
@@ -1406,7 +1432,7 @@ func TestVerifC17(t *testing.T) {
 			if !visit(c17case{Base: bn, Codec: "plain", Driver: "reader", Fault: "none"}) {
 				return
 			}
-			for _, p := range positions(len(b.Plain), b.Large, 0) {
+			for _, p := range rdPositions(len(b.Plain), b.Large) {
 				for _, ek := range []string{"EIO", "UEOF"} {
 					if !visit(c17case{Base: bn, Codec: "plain", Driver: "reader", Fault: "rderr", Pos: p, ErrKind: ek}) {
 						return
